@@ -244,7 +244,7 @@ SB_OP(alloc)
         } else if (k == 'S') {
             // poly solve with library-allocated roots
             sb_poly_t poly;
-            float cs[4] = { 1, -3, 0.5f, 2 };
+            float cs[8] = { 1, -3, 0.5f, 2, 1.5f, -0.25f, 3, -1 }; // more than 4: the 'unimplemented' path must free too
             sb_poly_make(&poly, cs, (uint8_t)tokul(a.empty() ? std::string(1, s) : std::string(1, s) + a));
             uint8_t n = 0;
             Track tr;
